@@ -1,4 +1,4 @@
-from heapq import heappush, heappop
+from heapq import heapify, heappush, heappop
 from itertools import count
 from types import MethodType
 from typing import (
@@ -248,6 +248,7 @@ class Environment:
         environment's time reaches until.
 
         """
+        stop_entry = None
         if until is not None:
             if not isinstance(until, Event):
                 # Assume that until is a number if it is not None and not an
@@ -268,7 +269,8 @@ class Environment:
                 until = Event(self)
                 until._ok = True
                 until._value = None
-                heappush(self._queue, (at, URGENT, next(self._eid), until))
+                stop_entry = (at, URGENT, next(self._eid), until)
+                heappush(self._queue, stop_entry)
 
             elif until.callbacks is None:
                 # Until event has already been processed.
@@ -301,4 +303,9 @@ class Environment:
                 and StopSimulation.callback in until.callbacks
             ):
                 until.callbacks.remove(StopSimulation.callback)
+                if stop_entry is not None:
+                    # the stop occurrence of a numeric until is this run's own:
+                    # it must not carry the clock there later
+                    self._queue.remove(stop_entry)
+                    heapify(self._queue)
         return None
